@@ -96,6 +96,14 @@ def named_motif(rng, kind, n):
         a, b, c, d = labels[:4]
         labels = labels[:4]
         edges = [[a, b], [b, c], [c, d], [d, a], [a, c]]
+    elif kind == "dumbbell":      # two triangles joined by a bridge: edge connectivity 1 below minimum degree 2
+        labels = rng.sample(range(0, 20), 6)
+        v = labels
+        edges = [[v[0], v[1]], [v[1], v[2]], [v[0], v[2]], [v[2], v[3]], [v[3], v[4]], [v[4], v[5]], [v[3], v[5]]]
+    elif kind == "barbell4":      # two 4-cycles sharing one vertex (a cut vertex; every degree is at least 2)
+        labels = rng.sample(range(0, 24), 7)
+        v = labels
+        edges = [[v[0], v[1]], [v[1], v[2]], [v[2], v[3]], [v[3], v[0]], [v[0], v[4]], [v[4], v[5]], [v[5], v[6]], [v[6], v[0]]]
     else:  # chorded pentagon
         v = labels[:5]
         labels = v
